@@ -268,5 +268,7 @@ Extraction "model.ml"
   EventV2.init
   EventV2.quiescent
   EventV2.stuck
+  Calc.run_start
+  Calc.run_ev
   (*END*).
 Cd "../coq".
